@@ -17,7 +17,7 @@ from chmpy.core.element import Element
 from chmpy.crystal import AsymmetricUnit, SpaceGroup, UnitCell
 
 TEST_FILES = os.path.join(os.path.dirname(chmpy.__file__), "tests", "test_files")
-FILES = ["r3c_example.cif", "acetic_acid.cif", "iceII.cif", "acetic_acid.res"]
+FILES = ["r3c_example.cif", "acetic_acid.cif", "iceII.cif", "acetic_acid.res", "HXACAN01.pdb", "example.gen"]
 RGROUPS = (146, 148, 155, 160, 161, 166, 167)
 
 # (number, choice) settings used for non-trigonal sources
